@@ -98,6 +98,8 @@ func project(res string, keys string) string {
 		return res
 	}
 	want := map[string]bool{}
+	onlyKV := strings.HasPrefix(keys, "=") // "=k1 k2": drop tokens that are not key=value
+	keys = strings.TrimPrefix(keys, "=")
 	for _, k := range strings.Fields(keys) {
 		want[k] = true
 	}
@@ -107,7 +109,7 @@ func project(res string, keys string) string {
 			if want[t[:i]] {
 				out = append(out, t)
 			}
-		} else {
+		} else if !onlyKV {
 			out = append(out, t)
 		}
 	}
